@@ -147,3 +147,63 @@ def gen_scenario(rng, nsec=None, kinds=None, fmts=None, **kw):
             fmt = "unified"     # known findings K2/K21: context/normal creation and deletion (operation inference)
         secs.append(section(rng, p, kind=kind, fmt=fmt, width=(rng.choice([1, 2, 3]) if kind in ("add", "delete") or fmt == "normal" else None)))
     return base_scenario(rng, secs, **kw)
+
+
+def same_file_scenario(rng, opts=None, git=False):
+    """several sections hit the same file in one run: delete f / change g / create f / change g again (or create-then-modify)"""
+    fmt = "git" if git else "unified"
+    a_f = [(gen.rand_text(rng, True), "L") for _ in range(rng.randint(1, 5))]
+    b_f = [(gen.rand_text(rng, True) + "2", "L") for _ in range(rng.randint(1, 5))]
+    g0 = [(gen.rand_text(rng, True), "L") for _ in range(rng.randint(3, 8))]
+    def change(lines):
+        ops = [(" ", l) for l in lines]
+        i = rng.randrange(len(ops)); ops[i] = ("-", lines[i]); ops.insert(i + 1, ("+", (lines[i][0] + "x", "L")))
+        return ops
+    def sec(path, ops, kind):
+        a = [l for o, l in ops if o != "+"]; b = [l for o, l in ops if o != "-"]
+        hs = gen.hunks_from_ops(ops, 2)
+        if fmt == "git":
+            text = emit.emit_git(path, path, hs, kind=kind)
+        elif kind == "add":
+            text = emit.emit_unified("/dev/null", "b/" + path, hs)
+        elif kind == "delete":
+            text = emit.emit_unified("a/" + path, "/dev/null", hs)
+        else:
+            text = emit.emit_unified("a/" + path, "b/" + path, hs)
+        return dict(path=path, newpath=path, a=a, b=b, text=text, fmt=fmt, kind=kind, hs=hs, ops=ops, mode_old=None, mode_new=None, w=2)
+    order = rng.choice(["delete-create", "create-modify", "modify-modify"])
+    secs = []
+    tree = {}
+    if order == "delete-create":
+        tree["f"] = ("R", 0o644, emit.file_bytes(a_f))
+        secs.append(sec("f", [("-", l) for l in a_f], "delete"))
+        g1ops = change(g0); secs.append(sec("g", g1ops, "change"))
+        secs.append(sec("f", [("+", l) for l in b_f], "add"))
+        g1 = [l for o, l in g1ops if o != "-"]; secs.append(sec("g", change(g1), "change"))
+    elif order == "create-modify":
+        secs.append(sec("f", [("+", l) for l in b_f], "add"))
+        g1ops = change(g0); secs.append(sec("g", g1ops, "change"))
+        secs.append(sec("f", change(b_f), "change"))
+    else:
+        tree["f"] = ("R", 0o644, emit.file_bytes(a_f))
+        f1ops = change(a_f); secs.append(sec("f", f1ops, "change"))
+        g1ops = change(g0); secs.append(sec("g", g1ops, "change"))
+        f1 = [l for o, l in f1ops if o != "-"]; secs.append(sec("f", change(f1), "change"))
+    tree["g"] = ("R", 0o644, emit.file_bytes(g0))
+    text = b"".join(x["text"] for x in secs)
+    tree["p.diff"] = ("R", 0o644, text)
+    o = dict(opts or {}); o["p"] = 1; o["i"] = "p.diff"
+    return dict(tree=tree, opts=o, umask=0o022, secs=secs, order=order)
+
+
+def headeronly_section(rng, path, kind):
+    """git sections without any hunk: creation / deletion of an empty file, pure rename, pure mode change"""
+    newpath = path
+    a = [] if kind in ("add", "delete") else [(gen.rand_text(rng, True), "L") for _ in range(rng.randint(1, 4))]
+    mo = mn = None
+    if kind == "rename":
+        newpath = "renamed_" + path.replace("/", "_")
+    if kind == "mode":
+        mo, mn = "100644", "100755"
+    text = emit.emit_git(path, newpath, [], kind=("change" if kind == "mode" else kind), old_mode=mo, new_mode=mn)
+    return dict(path=path, newpath=newpath, a=a, b=a, text=text, fmt="git", kind=kind, hs=[], ops=[(" ", l) for l in a], mode_old=mo, mode_new=mn, w=0)
